@@ -146,6 +146,19 @@ func keepBaselineDefs(name string, data []byte) []byte {
 	return append(append(data, '\n'), add.Bytes()...)
 }
 
+func leanBytes(s string) string {
+	var b strings.Builder
+	b.WriteByte('[')
+	for i := 0; i < len(s); i++ {
+		if i > 0 {
+			b.WriteString(", ")
+		}
+		fmt.Fprintf(&b, "%d", s[i])
+	}
+	b.WriteByte(']')
+	return b.String()
+}
+
 func writeIfChanged(path string, data []byte) {
 	data = keepBaselineDefs(filepath.Base(path), data)
 	old, err := os.ReadFile(path)
@@ -411,7 +424,7 @@ func main() {
 	b.WriteString("/- GENERATED by harness/extract from the RdpSettings struct — do not edit -/\n\n")
 	b.WriteString("namespace Rdpgw.Generated.RdpSettings\n\n")
 	b.WriteString("inductive Kind where\n  | bool | int | string\nderiving Repr, DecidableEq\n\n")
-	b.WriteString("structure Setting where\n  goName : String\n  kind : Kind\n  tag : String\n  hasDefault : Bool\n  default : String\nderiving Repr, DecidableEq\n\n")
+	b.WriteString("structure Setting where\n  goName : String\n  kind : Kind\n  tag : String\n  hasDefault : Bool\n  default : String\n  tagBytes : List UInt8\n  defaultBytes : List UInt8\nderiving Repr, DecidableEq\n\n")
 	b.WriteString("def table : List Setting := [\n")
 	ss := rdpSettings(rdp)
 	for i, s := range ss {
@@ -424,7 +437,7 @@ func main() {
 		if i == len(ss)-1 {
 			sep = ""
 		}
-		fmt.Fprintf(&b, "  ⟨%s, %s, %s, %v, %s⟩%s\n", leanStr(s.Go), k, leanStr(s.Tag), s.HasDef, leanStr(s.Def), sep)
+		fmt.Fprintf(&b, "  ⟨%s, %s, %s, %v, %s, %s, %s⟩%s\n", leanStr(s.Go), k, leanStr(s.Tag), s.HasDef, leanStr(s.Def), leanBytes(s.Tag), leanBytes(s.Def), sep)
 	}
 	b.WriteString("]\n\nend Rdpgw.Generated.RdpSettings\n")
 	writeIfChanged(filepath.Join(*out, "RdpSettings.lean"), b.Bytes())
